@@ -109,7 +109,7 @@ GRID_INTERIOR = {
 
 
 CLASS_NO_BRACKET = "lte-runaway-without-shock-bracket"
-CLASS_RAISES_AT_VJ = "lte-raises-at-first-matching"
+CLASS_RAISES_AT_VJ = "lte-raises-before-first-decision"
 CLASS_CB_GT_CS = "lte-no-matching-at-vwLTE-cb-above-cs"
 KNOWN_INPUTS_OTHER = [
     dict(kind="template", psiN=0.9347, alN=0.01051, cs2=0.2357, cb2=0.2815, Tn=173.2),
@@ -165,9 +165,9 @@ def specs(ctx):
 # instrumented run of Hydrodynamics.findvwLTE
 
 class LteRaised(Exception):
-    def __init__(self, exc, aux):
+    def __init__(self, exc, aux, events=()):
         Exception.__init__(self, repr(exc))
-        self.exc, self.aux = exc, aux
+        self.exc, self.aux, self.events = exc, aux, list(events)
 
 
 def record_findvwLTE(hy):
@@ -239,7 +239,7 @@ def record_findvwLTE(hy):
     try:
         res = hy.findvwLTE()
     except Exception as ex:
-        raise LteRaised(ex, aux)
+        raise LteRaised(ex, aux, events)
     finally:
         del hy.matchDeflagOrHyb, hy.solveHydroShock
         H.root_scalar, H.root = orig_rs, orig_root
@@ -817,10 +817,11 @@ def check_lte(ctx, spec, rtol=1e-6, atol=1e-10, gated=True, later_Tn=None, tmax=
         key = "raises:" + sid
         if E is not None and E > MARGIN_E and crude_guess_class(hy, lr.aux, judge):
             key = CLASS_KEY
-        elif len(lr.aux) == 1 and lr.aux[0]["raised"] and \
-                abs(lr.aux[0]["vw"] - (hy.vJ - 1e-10)) <= 1e-12 and E is not None and E > 0:
-            # recorded mechanism: the very first matching, at vJ - 1e-10, has no real v+
-            # (runaway regime: mismatch positive) and the NaN guard of matchDeflagOrHyb raises
+        elif E is not None and E > MARGIN_E and "Not able to find vp" in repr(lr.exc) and \
+                not any(e[0] == "Tn" for e in lr.events):
+            # recorded mechanism: runaway regime (mismatch positive); the matchings near vJ
+            # that findvwLTE needs BEFORE its first decision (at vJ - 1e-10, or inside the
+            # search for the shock position) have no real v+ and the NaN guard raises
             key = CLASS_RAISES_AT_VJ
         fails.append(("findvwLTE raised %s (mismatch %s at vw=%.6f); %s" % (
             repr(lr.exc)[:160], "n/a" if E is None else "%+.3e" % E, judge.lo, spec),
@@ -918,7 +919,8 @@ def check_lte(ctx, spec, rtol=1e-6, atol=1e-10, gated=True, later_Tn=None, tmax=
                                                          vals[0][0], spec),
                     dict(kind="runaway", vw=v, **case),
                     CLASS_NO_BRACKET if no_bracket_class(events) else "runaway-sign:" + sid))
-            BRIDGE.append((spec, hy, judge, vals))
+            else:
+                BRIDGE.append((spec, hy, judge, vals))
     elif res == 0:
         lo = judge.lo
         E = mismatch(hy, lo, judge, confirm=True)
